@@ -69,6 +69,7 @@ type c18Input struct {
 	hasLt bool
 	wt    input.WitnessType
 	csv   uint32
+	blob  bool
 }
 
 func (i *c18Input) OutPoint() wire.OutPoint            { return i.op }
@@ -79,7 +80,14 @@ func (i *c18Input) SignDesc() *input.SignDescriptor    { return &i.sd }
 func (i *c18Input) BlocksToMaturity() uint32           { return i.csv }
 func (i *c18Input) HeightHint() uint32                 { return 1 }
 func (i *c18Input) UnconfParent() *input.TxInfo        { return nil }
-func (i *c18Input) ResolutionBlob() fn.Option[tlv.Blob] { return fn.None[tlv.Blob]() }
+func (i *c18Input) ResolutionBlob() fn.Option[tlv.Blob] {
+	// Inputs of custom (aux) channels carry a resolution blob; that is how
+	// MaxFeeRateAllowed knows that the aux sweeper will add an extra output.
+	if i.blob {
+		return fn.Some(tlv.Blob{1})
+	}
+	return fn.None[tlv.Blob]()
+}
 func (i *c18Input) Preimage() fn.Option[lntypes.Preimage] {
 	return fn.None[lntypes.Preimage]()
 }
@@ -742,10 +750,20 @@ func (c *c18) pubCase() {
 			if rv < 0 {
 				rv = 0
 			}
-			inp.req = &wire.TxOut{Value: rv, PkScript: c18P2WSH}
-			inp.wt = input.HtlcOfferedTimeoutSecondLevel
-			reqS = strconv.FormatInt(rv, 10)
-			nReq++
+			// The aggregator (BudgetAggregator.filterInputs) never hands an
+			// input with a dust required output to the publisher: apply
+			// the same real filter here (boundary values 329/330/331 are
+			// generated, 329 is dropped as the aggregator would).
+			if c.rng.Intn(8) == 0 {
+				rv = c.pick(329, 330, 331, 332)
+			}
+			reqOut := &wire.TxOut{Value: rv, PkScript: c18P2WSH}
+			if !isDustOutput(reqOut) {
+				inp.req = reqOut
+				inp.wt = input.HtlcOfferedTimeoutSecondLevel
+				reqS = strconv.FormatInt(rv, 10)
+				nReq++
+			}
 		}
 		if c.rng.Intn(5) == 0 {
 			lt := uint32(height0) - uint32(c.rng.Intn(50))
@@ -771,17 +789,26 @@ func (c *c18) pubCase() {
 	auxS := "none"
 	var auxVal int64
 	if c.rng.Intn(8) == 0 {
-		auxVal = c.pick(330, 354, 1000, 123, 10000)
+		// extra output of the aux sweeper (p2tr): a well-behaved aux sweeper
+		// does not ask for a dust output (lnd's own MockAuxSweeper uses 123,
+		// which is below the p2tr dust limit; not reproduced here).
+		auxVal = c.pick(330, 331, 354, 1000, 10000)
 		auxOpt = fn.Some[AuxSweeper](&c18Aux{value: auxVal})
 		auxS = strconv.FormatInt(auxVal, 10)
+		for _, inp := range inputs {
+			inp.blob = true
+		}
 	}
 
 	// weights from the real estimator (trusted: not modelled).
-	wb, werr := calcSweepTxWeight(iface, [][]byte{delivery.DeliveryAddress})
 	scripts := [][]byte{delivery.DeliveryAddress}
+	budgetScripts := [][]byte{delivery.DeliveryAddress}
 	if auxS != "none" {
 		scripts = append(scripts, c18P2TR)
+		// as in MaxFeeRateAllowed when an input carries a blob
+		budgetScripts = append(budgetScripts, dummyChangePkScript)
 	}
+	wb, werr := calcSweepTxWeight(iface, budgetScripts)
 	_, we, werr2 := getWeightEstimate(iface, nil, 1, 0, scripts)
 	if werr != nil || werr2 != nil {
 		c.pf("CASE %d kind=skip", c.n)
@@ -951,8 +978,8 @@ func (c *c18) pubCase() {
 	}
 
 	c.pf("CASE %d kind=pub budget=%d maxrate=%d deadline=%d start=%s est=%s relay=%d "+
-		"script=%s dust=%d aux=%s wb=%d wtx=%d", c.n, budget, maxRate, deadline,
-		startS, estS, relay, script, dust, auxS, int64(wb), wtx)
+		"script=%s dust=%d aux=%s wb=%d wtx=%d reqscript=p2wsh auxscript=p2tr", c.n, budget,
+		maxRate, deadline, startS, estS, relay, script, dust, auxS, int64(wb), wtx)
 	for _, l := range ltLines {
 		c.pf("%s", l)
 	}
@@ -1027,6 +1054,90 @@ func (c *c18) pubCase() {
 	c.pf("END")
 }
 
+// pubWitnessCase is a fixed, minimal reproduction of "nothing is offered at the
+// ceiling by the deadline": NewSatPerKWeight rounds the budget rate to nearest,
+// so FeeForWeight(ceiling, weight) can be budget+1 and the bump one block
+// before the deadline fails with ErrNotEnoughBudget.
+func (c *c18) pubWitnessCase() {
+	c.n++
+	delivery := lnwallet.AddrWithKey{DeliveryAddress: c18P2WKH}
+	dust := int64(lnwallet.DustLimitForSize(len(c18P2WKH)))
+	var (
+		inputs []*c18Input
+		iface  []input.Input
+	)
+	for k := 0; k < 8; k++ {
+		var h chainhash.Hash
+		h[0], h[1] = 0xc1, byte(k+1)
+		inp := &c18Input{
+			op: wire.OutPoint{Hash: h, Index: uint32(k)},
+			sd: input.SignDescriptor{Output: &wire.TxOut{Value: 100000, PkScript: c18P2WSH}},
+			wt: input.WitnessKeyHash,
+		}
+		inputs = append(inputs, inp)
+		iface = append(iface, inp)
+	}
+	wb, err := calcSweepTxWeight(iface, [][]byte{delivery.DeliveryAddress})
+	if err != nil {
+		c.pf("CASE %d kind=skip", c.n)
+		c.pf("END")
+		return
+	}
+	// smallest budget >= 3000 whose rounded budget rate overshoots
+	budget := int64(3000)
+	for ; budget < 100000; budget++ {
+		r := chainfee.NewSatPerKWeight(btcutil.Amount(budget), wb)
+		if int64(r.FeeForWeight(wb)) > budget {
+			break
+		}
+	}
+	const (
+		height0  = int32(500)
+		deadline = int32(503)
+		relay    = int64(253)
+		maxRate  = int64(250000)
+	)
+	est := &c18Est{relay: chainfee.SatPerKWeight(relay), rate: chainfee.SatPerKWeight(relay)}
+	wallet := &c18Wallet{h: c, inputs: inputs, backend: "bitcoind"}
+	tp := NewTxPublisher(TxPublisherConfig{
+		Estimator: est, Wallet: wallet, Notifier: &c18Notifier{},
+		AuxSweeper: fn.None[AuxSweeper](),
+	})
+	tp.currentHeight.Store(height0)
+	req := &BumpRequest{
+		Budget:          btcutil.Amount(budget),
+		Inputs:          iface,
+		DeadlineHeight:  deadline,
+		DeliveryAddress: delivery,
+		MaxFeeRate:      chainfee.SatPerKWeight(maxRate),
+	}
+	c.pf("CASE %d kind=pub budget=%d maxrate=%d deadline=%d start=none est=%d relay=%d "+
+		"script=p2wkh dust=%d aux=none wb=%d wtx=%d reqscript=p2wsh auxscript=p2tr witness=1",
+		c.n, budget, maxRate, deadline, relay, relay, dust, int64(wb), int64(wb))
+	for k := range inputs {
+		c.pf("in idx=%d value=100000 req=none lt=none", k)
+	}
+	mfra, _ := req.MaxFeeRateAllowed()
+	c.pf("mfra => %d", int64(mfra))
+	rec := tp.storeInitialRecord(req)
+	sub := make(chan *BumpResult, 4)
+	tp.subscriberChans.Store(rec.requestID, sub)
+	c.pf("op init height=%d mp=- pub=-", height0)
+	tp.handleInitialBroadcast(rec)
+	c.resLine(tp, rec, sub)
+	for h := height0 + 1; h < deadline; h++ {
+		if _, live := tp.records.Load(rec.requestID); !live || rec.tx == nil {
+			break
+		}
+		tp.currentHeight.Store(h)
+		c.pf("op bump height=%d mp=- pub=-", h)
+		tp.wg.Add(1)
+		tp.handleFeeBumpTx(rec, h)
+		c.resLine(tp, rec, sub)
+	}
+	c.pf("END")
+}
+
 // ---------------------------------------------------------------------------
 
 func TestVerifC18(t *testing.T) {
@@ -1068,6 +1179,7 @@ func TestVerifC18(t *testing.T) {
 	for i := 0; i < nLong; i++ {
 		c.ffCase(true)
 	}
+	c.pubWitnessCase()
 	for i := 0; i < nPub; i++ {
 		c.pubCase()
 	}
